@@ -664,10 +664,9 @@ void model_setup(void)
 			g_topo = rk->vInitializeTopology((enum topology_geometry)P.m_topo, 1, (unsigned)P.n_lps);
 			break;
 	}
-	if(!g_topo) {
-		sim_note("MODEL-BUG: topology init failed");
-		sim_finish("harness");
-	}
+	if(!g_topo) /* the harness only asks for valid geometries and sizes >= 1 */
+		sim_violation("C19", "init-failed", "InitializeTopology(geometry %d, %lld x %lld / %lld regions) failed", (int)P.m_topo,
+		    (long long)P.m_topo_w, (long long)P.m_topo_h, (long long)P.n_lps);
 	if(P.m_topo == TOPOLOGY_GRAPH) {
 		struct sim_prng r;
 		prng_seed(&r, mix64((uint64_t)P.mseed, 0x70b0));
